@@ -33,7 +33,8 @@ GROUPS = [
     [{"est": "BytePairEncodingVectorizer"}, {"est": "CategoricalColumnTransformer"}],
     [{"est": W, "where": {"path": ["spmatrix/LOT_exact", "spmatrix/HeuristicLinearAlgebra"]}}],
     [{"est": W, "where": {"path": ["spmatrix/LOT_sinkhorn"]}}, {"est": "SinkhornVectorizer"}],
-    [{"est": W, "where": {"path": ["lil/LOT_exact", "generator/LOT_exact"]}}],
+    [{"est": W, "where": {"path": ["lil/LOT_exact"]}}],
+    [{"est": W, "where": {"path": ["generator/LOT_exact"]}}],
     [{"est": "ApproximateWassersteinVectorizer"}, {"est": "InformationWeightTransformer"}, {"est": "RowDenoisingTransformer"},
      {"est": "CountFeatureCompressionTransformer"}],
     [{"est": "SlidingWindowTransformer"}],
@@ -46,12 +47,24 @@ NOT_RUN = {"SignatureVectorizer": "needs the optional dependency iisignature, wh
 MUST_COVER = {
     "LabelledTreeCooccurrenceVectorizer": {"prune": ["off", "min_occ", "dict", "ignored"], "mask": ["off", "on"], "outer": ["list", "tuple", "ndarray_obj"]},
     W: {"path": ["spmatrix/LOT_exact", "spmatrix/LOT_sinkhorn", "spmatrix/HeuristicLinearAlgebra", "lil/LOT_exact", "generator/LOT_exact"],
-        "memory": ["small", "2G"], "cachedir": ["None", "CACHEDIR"], "lilx": ["list", "tuple", "typedlist"],
+        "memory": ["small", "2G"], "cachedir": ["None", "CACHEDIR"], "lilx": ["list", "tuple", "typedlist"], "size": ["tiny", "big"],
         "fmt": ["csr", "csc", "coo", "lil", "dok", "dia", "bsr", "csr_unsorted", "csc_unsorted", "csr_zeros", "csc_zeros", "ndarray"]},
-    "SinkhornVectorizer": {"memory": ["small", "2G"], "cachedir": ["None", "CACHEDIR"]},
+    "SinkhornVectorizer": {"memory": ["small", "2G"], "cachedir": ["None", "CACHEDIR"], "size": ["tiny", "big"]},
+    "ApproximateWassersteinVectorizer": {"size": ["tiny", "big"]},
+    "CountFeatureCompressionTransformer": {"size": ["tiny", "big"], "algorithm": ["randomized", "arpack"]},
+    "DistributionVectorizer": {"size": ["tiny", "big"]},
     "TokenCooccurrenceVectorizer": {"prune": ["off", "min_occ", "dict", "excluded"], "mask": ["off", "on", "nullify"],
                                     "outer": ["list", "tuple", "ndarray_obj", "series"], "inner": ["mixed", "ndarray_str"]},
 }
+# every code path with a randomised SVD inside: in the big cells (rows, rank > n_components + 10 oversamples) at least
+# one call of randomized_svd must have been NOT exact, in one block and in several - otherwise "two fits with the same
+# integer random_state agree" would be checked only where no random number matters
+SEEDED_SVD = [(W, {"path": p, "memory": m}) for p in MUST_COVER[W]["path"] for m in ("small", "2G") if not (p.endswith("Algebra") and m == "small")] + \
+             [("SinkhornVectorizer", {"memory": "small"}), ("SinkhornVectorizer", {"memory": "2G"}), ("ApproximateWassersteinVectorizer", {}),
+              ("CountFeatureCompressionTransformer", {"algorithm": "randomized"})]
+# transform takes **kwargs and / or y (read from the signatures in the child): the keyword phase must have run
+KEYWORD_PHASE = [W, "SinkhornVectorizer", "ApproximateWassersteinVectorizer", "CountFeatureCompressionTransformer", "RowDenoisingTransformer",
+                 "SlidingWindowTransformer", "SequentialDifferenceTransformer", "LZCompressionVectorizer", "BytePairEncodingVectorizer"]
 
 
 def run_child(jobs, timeout=1500):
@@ -90,8 +103,9 @@ def run(ctx, replay=None):
         batches = [[dict(j, seed=s) for s in seeds for j in g] for g in GROUPS]
     ctx.coverage["rule"] = ("one scenario per cell of the table (estimator x sensitive configuration) and seed: constructor parameters incl. "
                             "caller dictionaries / sets / index arrays / cachedir, tiny valid data in the cell's containers and formats, "
-                            "faulting fit, fit or fit_transform, the history A B A B!fault A malformed <other pool inputs> B A over persistent "
-                            "caller objects (B: same shape as A, other contents), refit on other data of the same shape, B A; "
+                            "faulting fit, fit or fit_transform, the history A B A B!fault A malformed <other pool inputs> B A [S+kw A A+kw S B] over persistent "
+                            "caller objects (B: same shape as A, other contents; S: the shortest input; +kw: keywords describing that input), refit on "
+                            "other data of the same shape, B A; constructor parameters compared after every call; "
                             "non-trivial = the scenario made >= 3 calls")
     ctx.assumptions += [
         "SignatureVectorizer is not run: " + NOT_RUN["SignatureVectorizer"],
@@ -100,6 +114,17 @@ def run(ctx, replay=None):
         "LZCompressionVectorizer in hashed mode with random_state=None (every LZ scenario passes an integer)",
         "the single-call reference is one transform on an untouched deep copy of the estimator taken right after fit (a fresh "
         "construct+fit when the estimator cannot be deep-copied: the numba-backed co-occurrence family and LZ)",
+        "sizes: beside the tiny cells every seeded SVD / mixture estimator has big cells (40-60 rows, n_components 2-3, LOT / vector dimension "
+        "> n_components + 10, memory_size giving >= 2 full blocks of >= n_components + 12 rows) where sklearn's randomized_svd is not exact; the "
+        "child counts exact / non-exact randomized_svd calls per cell, and in every big cell makes one more fit in which the FIRST randomized_svd call "
+        "gets a generator of the harness (evidence seed_sensitive: the model then differs by more than the tolerance); the run fails "
+        "(no-failing-input-found) if a seeded path had no such cell; n_svd_iter / n_iter is 0 or 1 in the big cells (with the default 7-10 power "
+        "iterations - with 2 on Sinkhorn vectors - the SVD of such small matrices converges to ~1e-9 whatever the start); numpy's and "
+        "Python's global generators are seeded per cell and advanced by unrelated draws before EVERY call",
+        "constructor parameters: get_params(deep=False) (the constructor-named attributes where it raises) compared by value after every call "
+        "with the values right after construction (functions / generator objects by identity)",
+        "keyword phase: for a transform taking **kwargs or y the keywords n_distributions / generator_n_distributions = rows of that input, "
+        "vector_dim / generator_vector_dim = its vector dimension, y = one entry per row are passed; the single-call reference gets the same keywords",
         "SVD based models whose requested components exceed the numerical rank (or with coinciding singular values) are counted "
         "(degenerate_svd) and their attributes not compared between two fits: the extra singular vectors are rounding noise",
         "outputs and fitted attributes are compared 'to 1e-9': max|a-b| <= 1e-9 * max(1, max|b|) per array, exceptions by class; aliasing "
@@ -121,6 +146,7 @@ def run(ctx, replay=None):
         results = list(ex.map(run_child, batches))
     n_calls = n_raised = 0
     aliases, faults, per_est, errors, seen, walls = {}, {}, {}, [], {}, {}
+    svd_seen, sens_seen, kw_seen, params_via, big_fits = {}, {}, {}, {}, {"compared": 0, "degenerate_svd": 0}
     ctx.coverage["child_wall_s"] = {"+".join(sorted({j["est"] + ("[%s]" % ",".join(v[0] for v in j["where"].values()) if j.get("where") else "")
                                                      for j in jobs})): info["wall_s"] for jobs, _, info in results}
     for jobs, res, info in results:
@@ -147,6 +173,19 @@ def run(ctx, replay=None):
             d["watched"] += r.get("watched", 0)
             d["wall_s"] = round(d["wall_s"] + (r.get("wall_s") or 0), 2)
             ok = not r.get("error")
+            for k, v in (r.get("svd") or {}).items():
+                d.setdefault("svd_calls", {})[k] = d.setdefault("svd_calls", {}).get(k, 0) + v
+            if r.get("params_via"):
+                params_via[r["est"]] = r["params_via"]
+            d["params_compared"] = d.get("params_compared", 0) + r.get("checks", {}).get("params_compared", 0)
+            if r.get("checks", {}).get("keyword_phase"):
+                kw_seen[r["est"]] = kw_seen.get(r["est"], 0) + 1
+            if ok and (r.get("cell") or {}).get("size") == "big":
+                big_fits["degenerate_svd" if r["checks"].get("degenerate_svd") else "compared"] += 1
+                for j, (n2, cond) in enumerate(SEEDED_SVD):
+                    if n2 == r["est"] and all(str(r["cell"].get(k)) == v for k, v in cond.items()) and not r["checks"].get("degenerate_svd"):
+                        svd_seen[j] = svd_seen.get(j, 0) + (r.get("svd") or {}).get("randomized_non_exact", 0)
+                        sens_seen[j] = sens_seen.get(j, 0) + (r["checks"].get("seed_sensitive") == "yes")
             if ok:
                 seen.setdefault((r["est"], r["seed"]), set()).add(r.get("cell_index"))
                 for k, v in (r.get("cell") or {}).items():
@@ -156,7 +195,7 @@ def run(ctx, replay=None):
             for a in r.get("aliases", []):
                 aliases["%s.%s" % (r["est"], a)] = aliases.get("%s.%s" % (r["est"], a), 0) + 1
             for k, v in r.get("checks", {}).items():
-                if k.startswith("fault_") or k in ("reference", "degenerate_svd", "degenerate_svd_refit", "poison"):
+                if k.startswith("fault_") or k in ("reference", "degenerate_svd", "degenerate_svd_refit", "poison", "seed_sensitive"):
                     faults["%s:%s" % (k, v)] = faults.get("%s:%s" % (k, v), 0) + 1
             if r.get("error"):
                 errors.append("%s/%s cell %s %s: %s" % (r["est"], r["seed"], r.get("cell_index"), json.dumps(r.get("cell")), r["error"]))
@@ -173,6 +212,11 @@ def run(ctx, replay=None):
                                                "comparison of %d calls" % n_calls, "cases": n_calls, "disagreements": len(ctx.violations)}
     ctx.coverage["traces_validated_against_impl"] = n_calls
     ctx.coverage["scenario_errors"] = errors[:20]
+    ctx.coverage["seeded_fits_at_non_exact_sizes"] = dict(big_fits, non_exact_randomized_svd_calls={
+        "%s %s" % (n2, json.dumps(cond, sort_keys=True)): svd_seen.get(j, 0) for j, (n2, cond) in enumerate(SEEDED_SVD)},
+        cells_that_see_one_reseeded_svd_call={"%s %s" % (n2, json.dumps(cond, sort_keys=True)): sens_seen.get(j, 0) for j, (n2, cond) in enumerate(SEEDED_SVD)})
+    ctx.coverage["keyword_phase_cells"] = kw_seen
+    ctx.coverage["constructor_parameters_read_via"] = params_via
     # completeness of the walk: every cell of every table ran to the end, for every seed; the named values were covered
     problems = []
     if not replay:
@@ -190,6 +234,13 @@ def run(ctx, replay=None):
                 miss = [v for v in vals if v not in d["dimensions"].get(dim, [])]
                 if miss:
                     problems.append("%s: %s never took the value(s) %s" % (name, dim, miss))
+        for j, (n2, cond) in enumerate(SEEDED_SVD):
+            if not svd_seen.get(j) or not sens_seen.get(j):
+                problems.append("%s %s: no big cell compared between two fits had a non-exact randomized_svd (%d calls) whose generator matters "
+                                "(%d cells told a reseeded first call from the seeded one)" % (n2, cond, svd_seen.get(j, 0), sens_seen.get(j, 0)))
+        for n2 in KEYWORD_PHASE:
+            if not kw_seen.get(n2):
+                problems.append("%s: the keyword phase never ran" % n2)
     problems += [e for e in errors if ": harness:" in e][:3]
     if problems and not ctx.violations:
         ctx.report("the table was not walked completely: %s; errors: %s" % (problems[:6], errors[:3]),
